@@ -244,6 +244,80 @@ class C05Adaptive(Harness):
 
 
 @register
+class C05GridMismatch(Harness):
+    prop = "C05"
+    group = "gridmismatch"
+    bounds_doc = "two adaptive fixed-width 1D histograms on DIFFERENT grids (widths 1 vs 2, or shifts 0 vs 0.5), bin counts 0..2 each incl. an empty left / right operand, symbolic offsets and contents; a+b, b+a, sum([a, b]): refused, or - if a result is returned - every operand bin is a bin of the result with its content (nothing lands on other edges)"
+
+    def instances(self, tier):
+        for kind in ("width", "shift"):
+            for n1, n2 in itertools.product((0, 1, 2), (0, 1, 2)):
+                if n1 == 0 and n2 == 0:
+                    continue
+                if tier == "quick" and n1 and n2 and (n1, n2) != (1, 2):
+                    continue
+                yield f"grid-{kind}-{n1}-{n2}", dict(kind=kind, n=[n1, n2])
+
+    def declare(self, cx, p):
+        return {"t": [cx.pyint(f"t{i}", -3, 3) for i in range(2)],
+                "f": [declare_cells(cx, f"{'ab'[i]}f", [p["n"][i]], "int") for i in range(2)]}
+
+    def _grid(self, p, i):
+        if p["kind"] == "width":
+            return (1.0, 0.0) if i == 0 else (2.0, 0.0)
+        return (1.0, 0.0) if i == 0 else (1.0, 0.5)
+
+    def _mk(self, E, p, x, i):
+        np = E.np
+        FWB = E.mod("physt.binnings").FixedWidthBinning
+        H1 = E.mod("physt.histogram1d").Histogram1D
+        n = p["n"][i]
+        w, sh = self._grid(p, i)
+        kw = dict(bin_width=w, bin_count=n, adaptive=True)
+        if n:
+            kw["bin_times_min"] = x["t"][i]
+        if sh:
+            kw["bin_shift"] = sh
+        return H1(FWB(**kw), np.asarray(x["f"][i], dtype=int))
+
+    def drive(self, E, p, x):
+        a, b = self._mk(E, p, x, 0), self._mk(E, p, x, 1)
+        obs = {}
+        for key, fn in (("r1", lambda: a + b), ("r2", lambda: b + a), ("r3", lambda: sum([a, b]))):
+            r = E.attempt(fn)
+            obs[key] = {"raised": r} if isinstance(r, Raised) else snap1d(E, r)
+        obs["after"] = [snap1d(E, a), snap1d(E, b)]
+        return obs
+
+    def oracle(self, cx, p, x, obs):
+        n = p["n"]
+        t = [z3.ToReal(cx.t(i)) for i in x["t"]]
+        F = [[cx.t(v) for v in x["f"][i]] for i in range(2)]
+        opbins = []
+        for i in range(2):
+            w, sh = self._grid(p, i)
+            for j in range(n[i]):
+                opbins.append(((t[i] + j) * w + sh, (t[i] + j + 1) * w + sh, F[i][j]))
+        for key in ("r1", "r2", "r3"):
+            r = obs[key]
+            if "raised" in r:
+                yield f"{key}_refusal_kind", r["raised"].name == "ValueError"
+                continue
+            B = [(cx.t(b[0]), cx.t(b[1])) for b in r["bins"]]
+            conj = [cx.eq(r["total"], zsum([c for _, _, c in opbins] + [z3.IntVal(0)]))]
+            for (l, rr, c) in opbins:
+                conj.append(z3.Or([z3.And(bl == l, br == rr) for bl, br in B] + [z3.BoolVal(False)]))
+            for k, (bl, br) in enumerate(B):
+                conj.append(cx.eq(r["freq"][k], zsum([z3.If(z3.And(bl == l, br == rr), c, 0) for (l, rr, c) in opbins] + [z3.IntVal(0)])))
+            yield f"{key}_refused_or_exact_union", z3.And(conj)
+        for i in range(2):
+            a = obs["after"][i]
+            w, sh = self._grid(p, i)
+            yield f"operand_unchanged[{i}]", z3.And([z3.BoolVal(len(a["freq"]) == n[i])] + [cx.eq(a["freq"][j], F[i][j]) for j in range(min(n[i], len(a["freq"])))]
+                                                   + [cx.t(a["bins"][j][0]) == (t[i] + j) * w + sh for j in range(min(n[i], len(a["freq"])))])
+
+
+@register
 class C05Refusals(Harness):
     prop = "C05"
     group = "refusals"
